@@ -31,6 +31,8 @@ def lattice(tier):
     chunking = [None, {'min_length': 8, 'max_length': 64}, {'min_length': 0, 'max_length': 4}, {'min_length': -4, 'max_length': 8},
                 {'min_length': 8.5, 'max_length': 64}, {'min_length': '8', 'max_length': 64}, {'min_length': 65, 'max_length': 64},
                 {'min_length': 1, 'max_length': 1}, {'min_length': 4, 'max_length': 4}, {'min_length': 5, 'max_length': 8},
+                # equal bounds that do NOT divide the length of the stream (the tail is shorter than a chunk)
+                {'min_length': 48, 'max_length': 48}, {'min_length': 64, 'max_length': 64}, {'min_length': 100, 'max_length': 100},
                 {'name': 'nochunker'}, {'min_length': 8, 'max_length': 64, 'extra': 1}, {'name': 'sha2'}, {'name': 'blake2b'}, {'name': 'aes_gcm'}]
     ciphers = [None, {'name': 'aes_gcm', 'key_bits': 128.0}, {'name': 'aes_gcm', 'key_bits': 192}, {'name': 'aes_gcm', 'key_bits': 128}, {'name': 'aes_gcm', 'key_bits': 100}, {'name': 'aes_gcm', 'key_bits': 256, 'nonce_bits': 96},
                {'name': 'aes_gcm', 'nonce_bits': 0}, {'name': 'aes_gcm', 'nonce_bits': 64}, {'name': 'chacha20_poly1305'},
